@@ -76,6 +76,178 @@ type Prop struct {
 type Inc struct {
 	Comp  int    `json:"comp"`
 	Props []Prop `json:"props,omitempty"`
+	Place *Place `json:"place,omitempty"` // nil: the tag stands directly in the file body
+}
+
+// Place puts the include tag somewhere else than directly in the file body.
+//
+// Evaluated once per element of the page variable rows (slot-twice: once for w1, once for w2):
+//
+//	loop               <div v-for="Var in rows"> block, tag </div>   or  v-for="(Idx, Var) in rows"
+//	slot-loop-named    slot content of components/ListW.vuego  (<li v-for="x9 in rows"><slot name="row" :n="x9">)
+//	slot-loop-default  slot content of components/ListD.vuego  (<li v-for="x9 in rows"><slot :n="x9">)
+//	slot-twice         slot content of components/TwiceW.vuego (<slot :n="w1"> … <slot :n="w2">)
+//
+// Form says how slot content is supplied: "var" (<template v-slot:row="r"> / v-slot="r", the
+// element is r.n), "hash" (<template #row="r">, named slot only), "destructure" ("{ n }", the
+// element is n), "plain" (plain children, default slot only; the element is n).
+// The wrapper components have no props and no front-matter and use names that collide with
+// nothing (rows, w1, w2, x9, r, n), so that the scope in which the supplied content is evaluated
+// is the includer's scope plus the slot binding under every reading of "includer scope".
+// Var (default x9) and Idx may be names of the case: the loop variable then shadows the
+// includer's variable inside the loop and must be gone after it.
+//
+// Evaluated at most once:
+//
+//	chain   the tag is a member of a v-if / v-else-if / v-else chain; Role = if | elseif | else.
+//	        Cond (Role if / elseif) and Pre are page variables holding a bool. Unless Joined, a
+//	        Role elseif / else tag follows a dummy <b v-if="Pre">; a Role if / elseif tag is followed
+//	        by a dummy <b v-else> unless Form is "open" or the next include is Joined.
+//	        Joined: the tag continues the chain of the include before it (no block in between).
+type Place struct {
+	Kind   string `json:"kind"`
+	Form   string `json:"form,omitempty"`
+	Var    string `json:"var,omitempty"`
+	Idx    string `json:"idx,omitempty"`
+	Role   string `json:"role,omitempty"`
+	Cond   string `json:"cond,omitempty"`
+	Pre    string `json:"pre,omitempty"`
+	Joined bool   `json:"joined,omitempty"`
+}
+
+const (
+	loopVar  = "x9"
+	rowsVar  = "rows"
+	slotVar  = "r"
+	slotProp = "n"
+)
+
+var wrappers = map[string]struct{ name, text string }{
+	"slot-loop-named":   {"ListW", `<ul><li v-for="x9 in rows"><slot name="row" :n="x9"></slot></li></ul>` + "\n"},
+	"slot-loop-default": {"ListD", `<ul><li v-for="x9 in rows"><slot :n="x9"></slot></li></ul>` + "\n"},
+	"slot-twice":        {"TwiceW", `<div><slot :n="w1"></slot><hr><slot :n="w2"></slot></div>` + "\n"},
+}
+
+func (p *Place) loopVar() string {
+	if p.Var != "" {
+		return p.Var
+	}
+	return loopVar
+}
+
+// elemPath is the path under which the include tag sees the current element ("" for chains).
+func (p *Place) elemPath() string {
+	switch {
+	case p == nil || p.Kind == "chain":
+		return ""
+	case p.Kind == "loop":
+		return p.loopVar()
+	case p.Form == "var" || p.Form == "hash":
+		return slotVar + "." + slotProp
+	}
+	return slotProp
+}
+
+func isIdent(s string) bool {
+	if s == "" {
+		return false
+	}
+	for i, r := range s {
+		if !(r >= 'a' && r <= 'z' || i > 0 && r >= '0' && r <= '9') {
+			return false
+		}
+	}
+	return true
+}
+
+// valid reports whether the fields combine (incs[j] is the include carrying p).
+func (p *Place) valid(incs []Inc, j int) bool {
+	switch p.Kind {
+	case "loop":
+		return p.Form == "" && (p.Var == "" || isIdent(p.Var)) && (p.Idx == "" || isIdent(p.Idx)) && p.Idx != p.loopVar()
+	case "slot-loop-named":
+		return p.Form == "var" || p.Form == "hash" || p.Form == "destructure"
+	case "slot-loop-default", "slot-twice":
+		return p.Form == "var" || p.Form == "destructure" || p.Form == "plain"
+	case "chain":
+		if p.Role != "if" && p.Role != "elseif" && p.Role != "else" {
+			return false
+		}
+		if p.Joined {
+			if p.Role == "if" || j == 0 || incs[j-1].Place == nil || incs[j-1].Place.Kind != "chain" || incs[j-1].Place.Role == "else" {
+				return false
+			}
+		}
+		return (p.Role == "else" || isIdent(p.Cond)) && (p.Role == "if" || p.Joined || isIdent(p.Pre))
+	}
+	return false
+}
+
+func nextJoined(incs []Inc, j int) bool {
+	return j+1 < len(incs) && incs[j+1].Place != nil && incs[j+1].Place.Kind == "chain" && incs[j+1].Place.Joined
+}
+
+// directive is the attribute the include tag itself carries.
+func (p *Place) directive() string {
+	if p == nil || p.Kind != "chain" {
+		return ""
+	}
+	switch p.Role {
+	case "if":
+		return `v-if="` + p.Cond + `"`
+	case "elseif":
+		return `v-else-if="` + p.Cond + `"`
+	}
+	return "v-else"
+}
+
+// wrap returns the text around (and including) the include tag.
+func (p *Place) wrap(tag, blk string, incs []Inc, j int, short bool) string {
+	switch p.Kind {
+	case "loop":
+		v := p.loopVar()
+		if p.Idx != "" {
+			v = "(" + p.Idx + ", " + v + ")"
+		}
+		return `<div v-for="` + v + ` in ` + rowsVar + `">` + "\n" + blk + tag + "</div>\n"
+	case "chain":
+		out := tag
+		if !p.Joined && p.Role != "if" {
+			out = `<b v-if="` + p.Pre + `">pre</b>` + "\n" + out
+		}
+		if p.Role != "else" && p.Form != "open" && !nextJoined(incs, j) {
+			out += "<b v-else>else</b>\n"
+		}
+		return out
+	}
+	w := wrappers[p.Kind]
+	var o, c string
+	if short {
+		o, c = "<"+kebab(w.name)+">\n", "</"+kebab(w.name)+">\n"
+	} else {
+		o, c = `<template include="components/`+w.name+`.vuego">`+"\n", "</template>\n"
+	}
+	named := p.Kind == "slot-loop-named"
+	switch p.Form {
+	case "var":
+		if named {
+			o += `<template v-slot:row="r">` + "\n"
+		} else {
+			o += `<template v-slot="r">` + "\n"
+		}
+		c = "</template>\n" + c
+	case "hash":
+		o += `<template #row="r">` + "\n"
+		c = "</template>\n" + c
+	case "destructure":
+		if named {
+			o += `<template #row="{ n }">` + "\n"
+		} else {
+			o += `<template v-slot="{ n }">` + "\n"
+		}
+		c = "</template>\n" + c
+	}
+	return o + tag + c
 }
 
 // Req is one :required / :require attribute on the component's root <template>; CSV is its raw value.
@@ -183,11 +355,15 @@ func incTag(c Case, inc Inc, short bool) string {
 	if a != "" {
 		a = " " + a
 	}
+	d := inc.Place.directive()
+	if d != "" {
+		d = " " + d
+	}
 	if short {
 		tag := kebab(cp.Name)
-		return fmt.Sprintf("<%s%s></%s>\n", tag, a, tag)
+		return fmt.Sprintf("<%s%s%s></%s>\n", tag, d, a, tag)
 	}
-	return fmt.Sprintf(`<template include="%s"%s></template>`+"\n", compPath(cp), a)
+	return fmt.Sprintf(`<template%s include="%s"%s></template>`+"\n", d, compPath(cp), a)
 }
 
 func body(c Case, id string, incs []Inc, short bool) string {
@@ -195,10 +371,40 @@ func body(c Case, id string, incs []Inc, short bool) string {
 	var b strings.Builder
 	b.WriteString(block(id+".in", names))
 	for j, inc := range incs {
-		b.WriteString(incTag(c, inc, short))
+		if inc.Place == nil {
+			b.WriteString(incTag(c, inc, short))
+		} else {
+			b.WriteString(inc.Place.wrap(incTag(c, inc, short), block(fmt.Sprintf("%s.l%d", id, j), names), incs, j, short))
+		}
+		if nextJoined(incs, j) {
+			continue // the chain goes on: no block between its members
+		}
 		b.WriteString(block(fmt.Sprintf("%s.a%d", id, j), names))
 	}
 	return b.String()
+}
+
+func usedWrappers(c Case) []string {
+	used := map[string]bool{}
+	note := func(incs []Inc) {
+		for _, inc := range incs {
+			if inc.Place != nil {
+				if _, ok := wrappers[inc.Place.Kind]; ok {
+					used[inc.Place.Kind] = true
+				}
+			}
+		}
+	}
+	note(c.Page)
+	for _, cp := range c.Comps {
+		note(cp.Incs)
+	}
+	var out []string
+	for k := range used {
+		out = append(out, k)
+	}
+	sort.Strings(out)
+	return out
 }
 
 func jsonOf(v any) string {
@@ -213,6 +419,9 @@ func jsonOf(v any) string {
 func files(c Case, short bool) map[string]string {
 	out := map[string]string{}
 	out["page.vuego"] = "<div>\n" + body(c, "P", c.Page, short) + "</div>\n"
+	for _, k := range usedWrappers(c) {
+		out["components/"+wrappers[k].name+".vuego"] = wrappers[k].text
+	}
 	for i, cp := range c.Comps {
 		var b strings.Builder
 		if len(cp.FM) > 0 {
@@ -362,11 +571,12 @@ type stats struct {
 	wrap, nowrap, leakWatch, passThru int
 	omitted                           int
 	jsonDocStatic                     int
+	places                            map[string]int // placements of include tags (loop, slot content, chain member)
 	bracketText                       map[string]int // string props starting with { or [ that are not JSON documents, per mode
 }
 
 func newStats() stats {
-	return stats{modes: map[string]int{}, boundKinds: map[string]int{}, bracketText: map[string]int{}}
+	return stats{modes: map[string]int{}, boundKinds: map[string]int{}, bracketText: map[string]int{}, places: map[string]int{}}
 }
 
 type result struct {
@@ -417,6 +627,101 @@ func jsonDoc(s string) (any, bool) {
 		return nil, false
 	}
 	return out, true
+}
+
+// evals returns the scopes in which the tag incs[j] is evaluated, in order, when the body of its
+// file runs in scope sc. vague is non-empty when the placement leaves the asserted domain.
+func evals(incs []Inc, j int, sc scope) (out []scope, vague string) {
+	p := incs[j].Place
+	if p == nil {
+		return []scope{sc}, ""
+	}
+	if !p.valid(incs, j) {
+		return nil, "malformed placement"
+	}
+	truth := func(name string) (bool, bool) {
+		v, ok := sc[name]
+		if !ok {
+			return false, false
+		}
+		b, isBool := v.v.(bool)
+		return b, isBool
+	}
+	switch p.Kind {
+	case "chain":
+		taken := false
+		// members before this one, back to the start of the chain
+		start := j
+		for start > 0 && incs[start].Place != nil && incs[start].Place.Kind == "chain" && incs[start].Place.Joined {
+			start--
+		}
+		for k := start; k <= j; k++ {
+			q := incs[k].Place
+			if k == start && q.Role != "if" {
+				b, ok := truth(q.Pre)
+				if !ok {
+					return nil, "chain condition is not a visible bool"
+				}
+				taken = b
+			}
+			chosen := !taken
+			if q.Role != "else" {
+				b, ok := truth(q.Cond)
+				if !ok {
+					return nil, "chain condition is not a visible bool"
+				}
+				chosen = chosen && b
+			}
+			if k == j {
+				if chosen {
+					return []scope{sc}, ""
+				}
+				return nil, ""
+			}
+			taken = taken || chosen
+		}
+		return nil, ""
+	case "slot-twice":
+		for _, w := range []string{"w1", "w2"} {
+			v, ok := sc[w]
+			if !ok || v.v == nil {
+				return nil, "w1 / w2 missing"
+			}
+			out = append(out, bindElem(p, sc, v, 0))
+		}
+		return out, ""
+	}
+	rv, ok := sc[rowsVar]
+	if !ok {
+		return nil, "rows missing"
+	}
+	rows, isList := rv.v.([]any)
+	if !isList {
+		return nil, "rows is not a list"
+	}
+	for i, row := range rows {
+		if row == nil {
+			return nil, "nil element"
+		}
+		out = append(out, bindElem(p, sc, mv{row, rv.typed}, i))
+	}
+	return out, ""
+}
+
+func bindElem(p *Place, sc scope, el mv, i int) scope {
+	e := sc.with()
+	switch {
+	case p.Kind == "loop":
+		e[p.loopVar()] = el
+		if p.Idx != "" {
+			e[p.Idx] = mv{i, true}
+		}
+	case p.Form == "var" || p.Form == "hash":
+		e[slotVar] = mv{map[string]any{slotProp: el.v}, el.typed}
+	default:
+		e[slotProp] = el
+	}
+	return e
 }
 
 // evalProps evaluates an include's attributes in the includer scope.
@@ -530,6 +835,7 @@ func model(c Case) result {
 			return
 		}
 		emit(id+".in", sc)
+		prevBig := false
 		for j, inc := range incs {
 			if inc.Comp < 0 || inc.Comp >= len(c.Comps) {
 				r.vague = "include of an unknown component"
@@ -545,66 +851,116 @@ func model(c Case) result {
 			} else {
 				r.st.nowrap++
 			}
-			props := evalProps(inc.Props, sc, &r)
-			seenInc[inc.Comp] = append(seenInc[inc.Comp], jsonOf(inc.Props))
-			child := sc.with()
-			for k, v := range props {
-				child[k] = v
+			scs, vg := evals(incs, j, sc)
+			if vg != "" {
+				r.vague = vg
 			}
-			for k, v := range cp.FM {
-				child[k] = mv{v.Go(), false}
-			}
-			for _, n := range c.Names {
-				_, inP := props[n]
-				_, inF := cp.FM[n]
-				_, inS := sc[n]
-				switch {
-				case inP && inF && inS:
-					r.st.collAll3++
-				case inP && inF:
-					r.st.collPropFM++
-				case inP && inS:
-					r.st.collPropIncluder++
-				case inF && inS:
-					r.st.collFMIncluder++
+			if pl := inc.Place; pl != nil {
+				r.st.places[pl.Kind]++
+				if pl.Form != "" {
+					r.st.places[pl.Kind+"/"+pl.Form]++
 				}
-				if !inP {
-					r.st.omitted++
-				}
-				if (inP || inF) && !inS {
-					r.st.leakWatch++ // a binding the following block must not see
-				}
-			}
-			for _, n := range reqNames(cp) {
-				_, inP := props[n]
-				_, inF := cp.FM[n]
-				_, inS := sc[n]
-				switch {
-				case inP:
-					r.st.reqProp++
-				case inF:
-					r.st.reqFM++
-				case inS:
-					r.st.reqScope++
-					r.scopeOnly = append(r.scopeOnly, n)
-				default:
-					r.st.reqMiss++
-					r.missing = append(r.missing, n)
-				}
-			}
-			if len(cp.Req) == 1 && strings.Contains(cp.Req[0].CSV, ",") {
-				r.st.reqCSV = true
-			}
-			if len(cp.Req) > 1 {
-				r.st.reqRepeated = true
-				for _, q := range cp.Req[1:] {
-					if q.Key != cp.Req[0].Key {
-						r.st.reqBothKeys = true
+				if pl.Kind == "chain" {
+					r.st.places[fmt.Sprintf("chain/%s/chosen=%v", pl.Role, len(scs) > 0)]++
+					if pl.Joined {
+						r.st.places["chain/joined"]++
 					}
 				}
+				if pl.Kind == "loop" && contains(c.Names, pl.loopVar()) {
+					r.st.places["loop/var-is-a-name"]++
+				}
+				if pl.Idx != "" {
+					r.st.places["loop/index"]++
+				}
+				for _, pr := range inc.Props {
+					if ep := pl.elemPath(); ep != "" && pr.Path == ep && pr.Mode != "static" {
+						r.st.places["prop-from-element/"+pr.Mode]++
+						if pl.Kind == "loop" && pr.Name == pl.loopVar() {
+							r.st.places["loop/prop-named-like-loop-var"]++
+						}
+					}
+					if pl.Idx != "" && pr.Path == pl.Idx && pr.Mode != "static" {
+						r.st.places["loop/prop-from-index"]++
+					}
+				}
+				if len(cp.FM)+len(inc.Props) > 8 {
+					r.st.places["placed-big"]++
+				}
+				if prevBig && pl.Kind != "chain" {
+					r.st.places["after-big-component"]++
+				}
 			}
-			walk(fmt.Sprintf("C%d", inc.Comp), cp.Incs, child, depth+1)
-			emit(fmt.Sprintf("%s.a%d", id, j), sc)
+			prevBig = len(cp.FM)+len(inc.Props) > 8
+			if prevBig {
+				r.st.places["big-component(>8 bindings)"]++
+			}
+			for _, e := range scs {
+				if inc.Place != nil && inc.Place.Kind == "loop" {
+					emit(fmt.Sprintf("%s.l%d", id, j), e)
+				}
+				props := evalProps(inc.Props, e, &r)
+				seenInc[inc.Comp] = append(seenInc[inc.Comp], jsonOf(inc.Props))
+				child := e.with()
+				for k, v := range props {
+					child[k] = v
+				}
+				for k, v := range cp.FM {
+					child[k] = mv{v.Go(), false}
+				}
+				for _, n := range c.Names {
+					_, inP := props[n]
+					_, inF := cp.FM[n]
+					_, inS := e[n]
+					switch {
+					case inP && inF && inS:
+						r.st.collAll3++
+					case inP && inF:
+						r.st.collPropFM++
+					case inP && inS:
+						r.st.collPropIncluder++
+					case inF && inS:
+						r.st.collFMIncluder++
+					}
+					if !inP {
+						r.st.omitted++
+					}
+					if (inP || inF) && !inS {
+						r.st.leakWatch++ // a binding the following block must not see
+					}
+				}
+				for _, n := range reqNames(cp) {
+					_, inP := props[n]
+					_, inF := cp.FM[n]
+					_, inS := e[n]
+					switch {
+					case inP:
+						r.st.reqProp++
+					case inF:
+						r.st.reqFM++
+					case inS:
+						r.st.reqScope++
+						r.scopeOnly = append(r.scopeOnly, n)
+					default:
+						r.st.reqMiss++
+						r.missing = append(r.missing, n)
+					}
+				}
+				if len(cp.Req) == 1 && strings.Contains(cp.Req[0].CSV, ",") {
+					r.st.reqCSV = true
+				}
+				if len(cp.Req) > 1 {
+					r.st.reqRepeated = true
+					for _, q := range cp.Req[1:] {
+						if q.Key != cp.Req[0].Key {
+							r.st.reqBothKeys = true
+						}
+					}
+				}
+				walk(fmt.Sprintf("C%d", inc.Comp), cp.Incs, child, depth+1)
+			}
+			if !nextJoined(incs, j) {
+				emit(fmt.Sprintf("%s.a%d", id, j), sc)
+			}
 		}
 	}
 	walk("P", c.Page, root, 0)
@@ -797,6 +1153,9 @@ func classify(c Case) (bool, []string) {
 		add(s.bracketText[md] > 0, "bracket-text-not-json-"+md)
 	}
 	add(s.jsonDocStatic > 0, "static-json-document")
+	for k, n := range s.places {
+		add(n > 0, "place:"+k)
+	}
 	add(s.falsyBound > 0, "bound-falsy")
 	add(s.collPropIncluder > 0, "collide-prop-includer")
 	add(s.collPropFM > 0, "collide-prop-frontmatter")
@@ -924,11 +1283,21 @@ var jsonDocs = []string{"[1,2]", `{"k":"v"}`, "[]", "{}", `[1,"a",{"z":[true]}]`
 // value from ever being a JSON document, whatever is interpolated
 var bracketPrefixes = []string{"[1] n", "{} c", "[w ", "{c", `{"k":1}x`, "[d"}
 
-func genProps(t *rapid.T, g *valGen, names []string, label string) []Prop {
+func genProps(t *rapid.T, g *valGen, names []string, label string, pl *Place) []Prop {
 	var out []Prop
 	for _, n := range names {
 		l := label + "." + n
 		src := func(base []string) string {
+			// where the tag is evaluated per element: mostly the element (same name as the loop
+			// variable, another name) or the index
+			if ep := pl.elemPath(); ep != "" {
+				switch x := rapid.IntRange(0, 9).Draw(t, l+".elem"); {
+				case x < 5 || (x < 8 && n == ep):
+					return ep
+				case x < 7 && pl.Idx != "":
+					return pl.Idx
+				}
+			}
 			// half of the time a universe name (pass-through / renaming), else a d-variable
 			if rapid.IntRange(0, 1).Draw(t, l+".srcKind") == 0 {
 				return rapid.SampledFrom(names).Draw(t, l+".srcName")
@@ -970,6 +1339,59 @@ func genProps(t *rapid.T, g *valGen, names []string, label string) []Prop {
 	return out
 }
 
+var slotForms = map[string][]string{
+	"slot-loop-named":   {"var", "hash", "destructure"},
+	"slot-loop-default": {"var", "destructure", "plain"},
+	"slot-twice":        {"var", "destructure", "plain"},
+}
+
+// genPlace draws where the include tag stands. rate is the share (of 20) of placed tags; prev is
+// the placement of the include before it (a chain can be continued).
+func genPlace(t *rapid.T, names []string, label string, rate int, multiOnly bool, prev *Place) *Place {
+	if rapid.IntRange(0, 19).Draw(t, label+".placed") >= rate {
+		return nil
+	}
+	hi := 9
+	if multiOnly {
+		hi = 6
+	}
+	switch k := rapid.IntRange(0, hi).Draw(t, label+".kind"); {
+	case k < 3:
+		p := &Place{Kind: "loop"}
+		if rapid.Bool().Draw(t, label+".ownvar") {
+			p.Var = rapid.SampledFrom(names).Draw(t, label+".var")
+		}
+		switch rapid.IntRange(0, 4).Draw(t, label+".idx") {
+		case 0:
+			p.Idx = "i9"
+		case 1:
+			if idx := rapid.SampledFrom(names).Draw(t, label+".idxname"); idx != p.Var {
+				p.Idx = idx
+			}
+		}
+		return p
+	case k < 7:
+		kind := []string{"slot-loop-named", "slot-loop-default", "slot-twice", "slot-loop-named"}[k-3]
+		return &Place{Kind: kind, Form: rapid.SampledFrom(slotForms[kind]).Draw(t, label+".form")}
+	}
+	conds := []string{"ct", "cf"}
+	p := &Place{Kind: "chain", Role: rapid.SampledFrom([]string{"if", "if", "elseif", "else"}).Draw(t, label+".role")}
+	if prev != nil && prev.Kind == "chain" && prev.Role != "else" && rapid.Bool().Draw(t, label+".joined") {
+		p.Joined = true
+		p.Role = rapid.SampledFrom([]string{"elseif", "else"}).Draw(t, label+".jrole")
+	}
+	if p.Role != "else" {
+		p.Cond = rapid.SampledFrom(conds).Draw(t, label+".cond")
+		if rapid.IntRange(0, 2).Draw(t, label+".open") == 0 {
+			p.Form = "open"
+		}
+	}
+	if p.Role != "if" && !p.Joined {
+		p.Pre = rapid.SampledFrom(conds).Draw(t, label+".pre")
+	}
+	return p
+}
+
 // nameStatus of a (component, name) over all instances of the component.
 type nameStatus struct{ provided, scopeOnly, missing int }
 
@@ -993,18 +1415,23 @@ func repair(c *Case, avoidFalsy bool) (status []map[string]*nameStatus, excluded
 	}
 	for f := 0; f <= len(c.Comps); f++ {
 		var incs []Inc
-		var fm map[string]vals.V
 		if f == 0 {
 			incs = c.Page
 		} else {
 			incs = c.Comps[f-1].Incs
-			fm = c.Comps[f-1].FM
 		}
-		_ = fm
+		// every scope in which each tag of this file is evaluated
+		at := make([][]scope, len(incs))
+		for j := range incs {
+			for _, sc0 := range inst[f] {
+				scs, _ := evals(incs, j, sc0)
+				at[j] = append(at[j], scs...)
+			}
+		}
 		for j := range incs {
 			for pi := range incs[j].Props {
 				p := &incs[j].Props[pi]
-				for _, sc := range inst[f] {
+				for _, sc := range at[j] {
 					switch p.Mode {
 					case "interp":
 						v, ok := sc.resolve(p.Path)
@@ -1043,9 +1470,9 @@ func repair(c *Case, avoidFalsy bool) (status []map[string]*nameStatus, excluded
 				}
 			}
 		}
-		for _, sc := range inst[f] {
-			for _, inc := range incs {
-				cp := c.Comps[inc.Comp]
+		for j, inc := range incs {
+			cp := c.Comps[inc.Comp]
+			for _, sc := range at[j] {
 				var r result
 				r.st = newStats()
 				props := evalProps(inc.Props, sc, &r)
@@ -1118,6 +1545,19 @@ func genCase(rec *ev.Rec, known *kf.File) func(t *rapid.T) Case {
 		c.Data["d2"] = g.next(t, "d2", true, true)
 		c.Data["d3"] = g.next(t, "d3", false, true)
 		c.Data["db"] = vals.Str(rapid.SampledFrom(bracketTexts).Draw(t, "db"))
+		// what placed include tags iterate over / test
+		var rows []vals.V
+		for i, nRows := 0, rapid.IntRange(2, 4).Draw(t, "rows"); i < nRows; i++ {
+			rows = append(rows, g.next(t, fmt.Sprintf("row%d", i), true, rapid.IntRange(0, 3).Draw(t, fmt.Sprintf("row%d.scalar", i)) > 0))
+		}
+		c.Data[rowsVar] = vals.List("[]any", rows...)
+		c.Data["w1"] = g.next(t, "w1", true, true)
+		c.Data["w2"] = g.next(t, "w2", true, false)
+		c.Data["ct"] = vals.Bool(true)
+		c.Data["cf"] = vals.Bool(false)
+		// pool: big components (more than 8 bindings) alternate with tags that are evaluated
+		// under freshly pushed scopes (loop iterations, slot content)
+		pool := rapid.IntRange(0, 3).Draw(t, "pool") == 0
 		c.Data["dm"] = vals.Map(map[string]vals.V{"k": g.next(t, "dm.k", false, true), "j": g.next(t, "dm.j", true, false)})
 
 		n := rapid.IntRange(1, 5).Draw(t, "comps")
@@ -1129,6 +1569,14 @@ func genCase(rec *ev.Rec, known *kf.File) func(t *rapid.T) Case {
 						cp.FM = map[string]vals.V{}
 					}
 					cp.FM[nm] = g.next(t, fmt.Sprintf("c%d.fmval.%s", i, nm), true, false)
+				}
+			}
+			if (pool && i == 0) || rapid.IntRange(0, 5).Draw(t, fmt.Sprintf("c%d.big", i)) == 0 {
+				if cp.FM == nil {
+					cp.FM = map[string]vals.V{}
+				}
+				for b, nb := 0, rapid.IntRange(6, 10).Draw(t, fmt.Sprintf("c%d.bulk", i)); b < nb; b++ {
+					cp.FM[fmt.Sprintf("zf%d", b)] = vals.Int(900 + b)
 				}
 			}
 			c.Comps = append(c.Comps, cp)
@@ -1146,12 +1594,37 @@ func genCase(rec *ev.Rec, known *kf.File) func(t *rapid.T) Case {
 			k := rapid.IntRange(0, 3).Draw(t, fmt.Sprintf("c%d.fan", i))
 			for j := 0; j < k; j++ {
 				l := fmt.Sprintf("c%d.inc%d", i, j)
-				c.Comps[i].Incs = append(c.Comps[i].Incs, Inc{Comp: rapid.SampledFrom(cand).Draw(t, l+".comp"), Props: genProps(t, g, c.Names, l)})
+				var prev *Place
+				if j > 0 {
+					prev = c.Comps[i].Incs[j-1].Place
+				}
+				pl := genPlace(t, c.Names, l, 5, false, prev)
+				c.Comps[i].Incs = append(c.Comps[i].Incs, Inc{Comp: rapid.SampledFrom(cand).Draw(t, l+".comp"), Place: pl, Props: genProps(t, g, c.Names, l, pl)})
 			}
 		}
 		k := rapid.IntRange(1, 3).Draw(t, "page.fan")
+		if pool {
+			k = 4
+		}
 		for j := 0; j < k; j++ {
 			l := fmt.Sprintf("page.inc%d", j)
+			if pool {
+				inc := Inc{Comp: 0}
+				if j%2 == 1 {
+					if n > 1 {
+						inc.Comp = rapid.IntRange(0, n-1).Draw(t, l+".comp")
+					}
+					inc.Place = genPlace(t, c.Names, l, 20, true, nil)
+				}
+				inc.Props = genProps(t, g, c.Names, l, inc.Place)
+				c.Page = append(c.Page, inc)
+				continue
+			}
+			var prev *Place
+			if j > 0 {
+				prev = c.Page[j-1].Place
+			}
+			pl := genPlace(t, c.Names, l, 9, false, prev)
 			// the page mostly includes first-level components so that chains get long
 			comp := 0
 			if rapid.IntRange(0, 2).Draw(t, l+".any") == 0 {
@@ -1159,7 +1632,18 @@ func genCase(rec *ev.Rec, known *kf.File) func(t *rapid.T) Case {
 			} else if j > 0 && rapid.Bool().Draw(t, l+".again") {
 				comp = c.Page[0].Comp // the same component again, with other props
 			}
-			c.Page = append(c.Page, Inc{Comp: comp, Props: genProps(t, g, c.Names, l)})
+			c.Page = append(c.Page, Inc{Comp: comp, Place: pl, Props: genProps(t, g, c.Names, l, pl)})
+		}
+
+		// bound the size of the render: nested multi-evaluation placements multiply
+		if len(model(c).exp) > 900 {
+			for i := range c.Comps {
+				for j := range c.Comps[i].Incs {
+					if pl := c.Comps[i].Incs[j].Place; pl != nil && pl.Kind != "chain" {
+						c.Comps[i].Incs[j].Place = nil
+					}
+				}
+			}
 		}
 
 		status, excluded := repair(&c, avoidFalsy)
